@@ -102,8 +102,9 @@ fn normalise(v: &mut Value) {
     walk(v, &ids);
 }
 
-/// Own cross-run normaliser: `sdk::report_cross_run` scans the report text byte-wise (`txt[i..]` with
-/// `i += 1`) and panics on the first non-ASCII character, which generated titles/payloads contain.
+/// Own cross-run normaliser.  When this check was written `sdk::report_cross_run` panicked on non-ASCII
+/// report text and numbered ingredient manifests in HashMap order (both since fixed in vh::sdk); this one
+/// never depended on either: it renames only the active manifest label and compares every other URN verbatim.
 /// Here: the active manifest label (the only URN that is new per signing run) is renamed `M0`, volatile
 /// members are blanked.
 fn cross_run(r: &Reader) -> Value {
